@@ -15,7 +15,7 @@ CFG = {
         "Leptos.Url.pctDecode_escape",
         "Leptos.Url.utf8Lossy_of_valid",
     ],
-    "harness_pkg": "hx-core",
+    "harness_pkg": "hx-c15",
     "harness_bin": "c15",
     "n": {"quick": 6000, "thorough": 400000},
     "rule": "seeded generator over request targets built from percent-escape atoms (valid/invalid UTF-8, "
